@@ -181,6 +181,8 @@ func runC13(r *rt.Run, tier string) {
 		ra = io.NewSectionReader(disk, int64(len(pre)), int64(len(img)))
 		prof += "/window"
 		r.Probe("archive-is-a-window-into-a-larger-device")
+	} else if !faulty && !transient && t.Bool(1, 5, "c13.argtype") {
+		ra = typedReaderAt(r, img, disk)
 	} else if t.Bool(1, 4, "c13.seqflavour") {
 		s := simdisk.Seq{Disk: disk}
 		buf := make([]byte, []int{8, 64, len(img) + 1}[t.Draw(3, "c13.sniff")])
